@@ -274,3 +274,27 @@ Example C05_precedence_examples :
     POk (ELogic LOr (ELogic LAnd (ECmp CLt (EArith AAdd (c "a") (EVal (VInt 1))) (c "b")) (ENot (c "x"))) (c "y")) [] /\
   opt_expr (lit "( a  ||b )&& c") = POk (ELogic LAnd (ELogic LOr (c "a") (c "b")) (c "c")) [].
 Proof. exact precedence_examples. Qed.
+
+(** *** the text of a date and of a duration as the string functions see it ([Value::to_string]: chrono's Debug forms,
+    DateFmt.v / DurFmt.v, compared byte for byte with the binary): concat of a date is its `…Z` text, the text determines
+    the value *)
+From AG Require Import DateFmt DatePaths DatePaths_proofs DurFmt DurFmt_proofs.
+
+Theorem C05_concat_of_a_date : forall ns,
+  eval_func (lit "concat") [VDate ns] = Ok (VStr (fmt_date_debug ns)).
+Proof. exact concat_date. Qed.
+Print Assumptions C05_concat_of_a_date.
+
+Theorem C05_date_text_determines_the_date : forall a b, to_display (VDate a) = to_display (VDate b) -> a = b.
+Proof. exact to_display_date_injective. Qed.
+Print Assumptions C05_date_text_determines_the_date.
+
+Theorem C05_duration_text_determines_the_duration : forall a b, to_display (VDur a) = to_display (VDur b) -> a = b.
+Proof. exact to_display_dur_injective. Qed.
+Print Assumptions C05_duration_text_determines_the_duration.
+
+Example C05_date_and_duration_text_example :
+  to_display (VDate 1628640000500000000) = Ok (lit "2021-08-11T00:00:00.500Z") /\
+  to_display (VDur (-1500000000)) = Ok (lit "TimeDelta { secs: -2, nanos: 500000000 }").
+Proof. vm_compute. split; reflexivity. Qed.
+Print Assumptions C05_date_and_duration_text_example.
